@@ -720,7 +720,10 @@ func (r *fileRW) rangeStmt(s *ast.RangeStmt) {
 	default:
 		fatal("cannot instrument: range over a computed map at %s", r.fset.Position(s.Pos()))
 	}
-	// per-iteration value variable: refuse if a closure captures the loop variables
+	// The rewritten loop declares its variables per iteration.  Under the go-1.20 semantics
+	// of go.mod the original's variables are shared by all iterations, which a closure that
+	// captures them can observe: such a loop keeps one pair of variables, declared in front
+	// of the loop (only for := loops without a label; anything else is refused).
 	var objs []types.Object
 	for _, e := range []ast.Expr{s.Key, s.Value} {
 		if id, ok := e.(*ast.Ident); ok && id.Name != "_" {
@@ -731,13 +734,17 @@ func (r *fileRW) rangeStmt(s *ast.RangeStmt) {
 			}
 		}
 	}
+	captured := false
 	ast.Inspect(s.Body, func(n ast.Node) bool {
 		if fl, ok := n.(*ast.FuncLit); ok {
 			ast.Inspect(fl, func(m ast.Node) bool {
 				if id, ok := m.(*ast.Ident); ok {
 					for _, o := range objs {
 						if r.info.Uses[id] == o {
-							fatal("cannot instrument: closure captures range variable %s at %s", id.Name, r.fset.Position(id.Pos()))
+							if s.Tok != token.DEFINE {
+								fatal("cannot instrument: closure captures range variable %s at %s", id.Name, r.fset.Position(id.Pos()))
+							}
+							captured = true
 						}
 					}
 				}
@@ -747,6 +754,29 @@ func (r *fileRW) rangeStmt(s *ast.RangeStmt) {
 		}
 		return true
 	})
+	if captured {
+		m := r.text(s.X)
+		site := r.site("range")
+		k, v := keyName, valName
+		if k == "" {
+			k = "_"
+		}
+		if v == "" {
+			v = "_"
+		}
+		head := fmt.Sprintf("{ %s, %s := sim.ZeroKV(%s); for _, simk := range sim.Keys(%s, %q) { ", k, v, m, m, site)
+		if keyName != "" {
+			head += keyName + " = simk; "
+		}
+		if valName != "" {
+			head += fmt.Sprintf("var simok bool; %s, simok = %s[simk]; if !simok { continue };", valName, m)
+		} else {
+			head += fmt.Sprintf("if _, simok := %s[simk]; !simok { continue };", m)
+		}
+		r.replace(s.For, s.Body.Lbrace+1, head)
+		r.replace(s.Body.Rbrace, s.Body.Rbrace+1, "}}")
+		return
+	}
 	m := r.text(s.X)
 	site := r.site("range")
 	var head string
